@@ -37,6 +37,11 @@ def breaker_cfg(draw):
     if gen.chance(draw, 0.08, "bm-big"):
         spec["threshold"] = draw(st.sampled_from([63, 64, 65, 66, 100]))
         spec["window"] = 256
+    if gen.chance(draw, 0.1, "bm-default-window"):
+        # window_s left to its documented default (60 s) next to long recovery timeouts; failures age across it
+        del spec["window"]
+        spec["recovery"] = draw(st.sampled_from([64 * 30, 64 * 45, 64 * 120]))
+        spec["threshold"] = draw(st.sampled_from([2, 2, 3]))
     if gen.chance(draw, 0.5, "bm-ct"):
         spec["class_thresholds"] = draw(st.dictionaries(st.sampled_from(CLASSES), st.sampled_from([1, 2, 2, 3]), min_size=1, max_size=2))
     return spec
@@ -80,7 +85,9 @@ def history_case(draw, max_ops: int = 60):
 
 
 def make_real(spec: dict) -> CircuitBreaker:
-    kw: dict = dict(failure_threshold=spec["threshold"], window_s=g(spec["window"]), recovery_timeout_s=g(spec["recovery"]))
+    kw: dict = dict(failure_threshold=spec["threshold"], recovery_timeout_s=g(spec["recovery"]))
+    if "window" in spec:
+        kw["window_s"] = g(spec["window"])  # else: the documented default of 60 s
     shared = None
     if spec.get("trip_on") is not None:
         shared = {ErrorClass[k] for k in spec["trip_on"]}
